@@ -43,6 +43,8 @@ def run(ctx, rep):
     # the fraction handed to Fractional::new (0..=999_999_999, asserted there) is an obligation of every caller
     run_contracts(ctx, rep, select=lambda f: f.file.startswith("src/fmt/"), floor=10)
     run_dep(ctx, rep, "C15")
+    from ..rules_parse import accumulate
+    accumulate(rep, ctx.prog("Q"))
     run_loneabs(ctx, rep)
     whole_sign(rep, ctx.prog("Q"))
     comma_ws(rep, ctx.prog("Q"))
